@@ -416,6 +416,56 @@ def h_linear_action(env, N, how):
     vec_eq(env, 'image', vec_of(A, N, M), want)
 
 
+def h_arith_after_action(env, N, op):
+    """a polynomial that came out of arithmetic (a sum: reduced, phases moved into coefficients) is rotated in place (terms
+    pick up signs in their phase indicators) and then used in arithmetic again: the results denote the operators of the
+    objects as they are now"""
+    M = Mods(env)
+    g = env.bits('g', (2, 2 * N))
+    env.assume(b_not(arr_eq(g[0], g[1])), 'two different strings (so that the sum has two terms)')
+    P0 = M.pa.Pauli(g[0].copy(), 0)
+    P1 = M.pa.Pauli(g[1].copy(), 0)
+    built = env.run(lambda: (P0 + 2 * P1, 3 * P1 - P0))
+    env.goal('built_no_exception', b_not(built.raised))
+    if built.value is None:
+        return
+    A, B = built.value
+    ta = [(g[0], 0, (1, 0)), (g[1], 0, (2, 0))]
+    tb = [(g[1], 0, (3, 0)), (g[0], 0, (-1, 0))]
+    gg = env.bits('gen', (2 * N,))
+    pg = env.signs('gen_sign', (1,))[0]
+    r1 = env.run(lambda: (A.rotate_by(M.pa.Pauli(gg.copy(), pg)), B.rotate_by(M.pa.Pauli(gg.copy(), pg))))
+    env.goal('rotation_no_exception', b_not(r1.raised))
+    ra = [ref.ref_rotate(gg, pg, gi, pi) + (c,) for gi, pi, c in ta]
+    rb = [ref.ref_rotate(gg, pg, gi, pi) + (c,) for gi, pi, c in tb]
+    va, vb = coefvec(N, ra), coefvec(N, rb)
+    vec_eq(env, 'rotated_A', vec_of(A, N, M), va)
+    first_term = (oarr(list(np.asarray(A.gs[0], dtype=object))), A.ps[0], parts(A.cs[0]))     # whichever term the reduction put first
+    f = {'add': lambda: A + B, 'sub': lambda: A - B, 'self_add': lambda: A + A, 'scaled_add': lambda: 2 * A + A, 'plus_number': lambda: (A + B) + 1,
+         'slice_add': lambda: A[0:1] + B, 'copy_add': lambda: A.copy() + B}[op]
+    res = env.run(f)
+    env.goal('no_exception', b_not(res.raised))
+    if res.value is None:
+        return
+    neg = lambda v: {s: (arith('-', 0, v[s][0]), arith('-', 0, v[s][1])) for s in v}
+    add = lambda u, v: {s: cadd(u[s], v[s]) for s in u}
+    ident = tuple([0] * (2 * N))
+    if op == 'add' or op == 'copy_add':
+        want = add(va, vb)
+    elif op == 'sub':
+        want = add(va, neg(vb))
+    elif op == 'self_add':
+        want = add(va, va)
+    elif op == 'scaled_add':
+        want = add(add(va, va), va)
+    elif op == 'plus_number':
+        want = add(va, vb)
+        want[ident] = cadd(want[ident], (1, 0))
+    else:
+        want = add(coefvec(N, [first_term]), vb)
+    reduced_goals(env, 'result', res.value, want, N, M)
+
+
 def h_monomial_inverse(env, N, c):
     """PauliMonomial.inverse(): m.inverse() @ m is the identity operator (concrete coefficient, symbolic string and phase)"""
     M = Mods(env)
@@ -559,4 +609,7 @@ def jobs(tier):
             J.append(dict(harness=('c15', 'h_monomial_inverse'), params=dict(N=N, c=list(c)), max_paths=5000))
         for how in ('rotate', 'transform'):
             J.append(dict(harness=('c15', 'h_linear_action'), params=dict(N=N, how=how), timeout_s=600))
+        for op in ('add', 'sub', 'self_add', 'scaled_add', 'plus_number', 'slice_add', 'copy_add'):
+            if N == 1 or op in ('add', 'slice_add', 'plus_number'):
+                J.append(dict(harness=('c15', 'h_arith_after_action'), params=dict(N=N, op=op), timeout_s=600, max_paths=20000, cost=20))
     return J
